@@ -4,7 +4,7 @@ THEOREMS = [P + t for t in [
     "stale_forever", "stale_inert", "listener_detached_on_resume", "item_not_consumed_by_absent_waiter",
     "sleep_not_early", "deadline_scoped", "immediate_select_give_registers_nothing", "deadline_inert_after_body_finished",
     "sleep_not_early_ieee", "cMs_ge_model", "sleep_not_early_rn", "round_nearest_exists",
-    "resumed_only_by_registration_of_current_wait", "live_registration_is_of_current_epoch", "abandoned_stream_activity_inert", "timed_stream_wait_sources_disarm_each_other",
+    "resumed_only_by_registration_of_current_wait", "live_registration_is_of_current_epoch", "epoch_counts_resumes", "registration_made_since_previous_resume", "abandoned_stream_activity_inert", "timed_stream_wait_sources_disarm_each_other",
     "listener_detached_on_resume_any_depth", "body_done_marks", "popLive_of_any_live",
     "self_scheduled_wait_stays_live_without_resume_bump", "nested_listener_survives_when_did_resume_late",
     "abandoned_x_procwait_cancels_when_err_branch_unchecked", "stale_thread_completion_inert",
